@@ -196,4 +196,13 @@ Proof.
   unfold get_node, set_node; cbn. rewrite nth_upd_other by lia.
   rewrite app_nth2 by lia. rewrite Nat.sub_diag. reflexivity.
 Qed.
+
+(** renameChildTo's callback tells the moved fidRef its new parent File and new name (last call) *)
+Theorem rename_cb_notifies tgt newnm r p (s : st) :
+  fr_parent (gref s r) = Some p ->
+  exists s3, hd_error (s_log B (rename_cb B bstep tgt newnm r s)) = Some (BRenamed (fr_file (gref s3 r)) (fr_file (gref s3 tgt)) newnm).
+Proof.
+  intros E. unfold rename_cb. rewrite E. eexists. unfold bcall_.
+  match goal with |- context [bstep ?b ?c] => destruct (bstep b c) end. cbn. reflexivity.
+Qed.
 End Fence.
